@@ -209,8 +209,9 @@ def int_binop(op, a, b, pend):
                 return to_int(x) + c - 2 * to_int(and_const(x, c))
         return bv_op(op, a, b, pend)
     if op == '**':
-        if ca and int(a) == 2:
-            return pow2_int(zb)
+        if ca and int(a) > 1 and int(a) & (int(a) - 1) == 0:
+            # (2**j)**k: modelled as the real 2**(j*k) (Python gives an int for k >= 0 and a float for k < 0)
+            return pow2_real(zb * (int(a).bit_length() - 1))
         if cb and 0 <= int(b) <= 4:
             r = z3.IntVal(1)
             for _ in range(int(b)):
